@@ -56,6 +56,9 @@ class Module:
             for node in body:
                 if isinstance(node, (ast.FunctionDef,)):
                     self.functions[prefix + node.name] = node
+                    for sub in ast.walk(node):
+                        if isinstance(sub, ast.FunctionDef) and sub is not node:
+                            self.functions.setdefault(prefix + node.name + "." + sub.name, sub)
                 elif isinstance(node, ast.ClassDef):
                     self.classes[prefix + node.name] = node
                     visit(node.body, prefix + node.name + ".", False)
@@ -142,6 +145,23 @@ def new_loc():
     return _loc[0]
 
 
+class CurState:
+    """proxy for "the state currently being executed": lazily evaluated array element
+    functions must attach facts / obligations to the path that *reads* them, not to
+    the (possibly diverged) state object that existed when the array was built"""
+
+    __slots__ = ("_eng",)
+
+    def __init__(self, eng):
+        object.__setattr__(self, "_eng", eng)
+
+    def __getattr__(self, name):
+        return getattr(object.__getattribute__(self, "_eng").cur_state, name)
+
+    def __setattr__(self, name, value):
+        setattr(object.__getattribute__(self, "_eng").cur_state, name, value)
+
+
 class Obligation:
     def __init__(self, name, kind, hyps, goal, meta=None):
         self.name = name
@@ -200,11 +220,13 @@ class Engine:
         self.builtins = {}
         self.call_hooks = {}
         self.spec_frame = None
-        self.feas_solver_timeout = 2000
+        self.feas_solver_timeout = 400
         from . import pymodel, npmodel, spec
 
         self.trusted_calls = set()
         self.global_facts = []
+        self.cur_state = None
+        self.pst = CurState(self)
         spec.install(self)
         pymodel.install(self)
         npmodel.install(self)
@@ -441,6 +463,25 @@ class Engine:
         if m is None:
             raise Unsupported(f"statement {type(node).__name__} at line {node.lineno}")
         self.cur_line = getattr(node, "lineno", 0)
+        self.cur_state = state
+        probes = getattr(self, "probes", None)
+        if probes:
+            try:
+                txt = ast.unparse(node)
+            except Exception:
+                txt = None
+            hit = probes.get(txt)
+            if hit is not None:
+                outs = m(node, state, fid)
+                label, names = hit
+                self.probes_hit.add(label)
+                for s2, oc in outs:
+                    if oc.kind == "normal":
+                        fr = s2.frames[fid]["vars"]
+                        for nm in names:
+                            if nm in fr:
+                                fr[f"{nm}_at_{label}"] = fr[nm]
+                return outs
         return m(node, state, fid)
 
     def st_Pass(self, node, state, fid):
@@ -949,6 +990,9 @@ class Engine:
         m = getattr(self, "ex_" + type(node).__name__, None)
         if m is None:
             raise Unsupported(f"expression {type(node).__name__} at line {getattr(node, 'lineno', '?')}")
+        if isinstance(state, CurState):
+            state = self.cur_state
+        self.cur_state = state
         return m(node, state, fid)
 
     def _seq(self, nodes, state, fid, k):
@@ -956,6 +1000,7 @@ class Engine:
 
         def go(i, st, acc):
             if i == len(nodes):
+                self.cur_state = st
                 return k(st, acc)
             out = []
             for s2, v in self.eval_fork(nodes[i], st, fid):
@@ -1126,7 +1171,7 @@ class Engine:
     def unop(self, st, op, a):
         a = self.deref(st, a)
         if isinstance(a, ArrV):
-            return self.np_map(st, lambda x: self.unop(st, op, x), a)
+            return self.np_map(st, lambda x: self.unop(self.pst, op, x), a)
         if isinstance(op, ast.USub):
             return V.neg(a)
         if isinstance(op, ast.UAdd):
@@ -1152,7 +1197,7 @@ class Engine:
         if isinstance(a, ArrV) or isinstance(b, ArrV):
             if isinstance(op, ast.MatMult):
                 return self.np_matmul(st, a, b)
-            return self.np_zip(st, lambda x, y: self.binop(st, op, x, y, node), a, b)
+            return self.np_zip(st, lambda x, y: self.binop(self.pst, op, x, y, node), a, b)
         if isinstance(a, float):
             a = V.norm_num(a)
         if isinstance(b, float):
@@ -1266,7 +1311,7 @@ class Engine:
             r = self.contains(st, b, a)
             return r if isinstance(op, ast.In) else V.b_not(r)
         if isinstance(a, ArrV) or isinstance(b, ArrV):
-            return self.np_zip(st, lambda x, y: self.compare(st, op, x, y), a, b)
+            return self.np_zip(st, lambda x, y: self.compare(self.pst, op, x, y), a, b)
         sym = {ast.Eq: "==", ast.NotEq: "!=", ast.Lt: "<", ast.LtE: "<=", ast.Gt: ">", ast.GtE: ">="}[type(op)]
         if a is None or b is None:
             if sym == "==":
@@ -1354,6 +1399,8 @@ class Engine:
         return self._seq([node.value], state, fid, k)
 
     def getattr_fork(self, st, base, attr, node=None):
+        if isinstance(st, CurState):
+            st = self.cur_state
         hook = getattr(self, "getattr_hook", None)
         if hook:
             r = hook(self, st, base, attr)
@@ -1451,6 +1498,11 @@ class Engine:
                 raise Unsupported("symbolic list slice")
             if isinstance(idx, int) and idx < 0 and isinstance(obj.n, int):
                 idx = obj.n + idx
+            if isinstance(idx, int) and isinstance(obj.n, int) and not (0 <= idx < obj.n):
+                if st.ghost:
+                    return 0  # value of a spec expression outside its guard: irrelevant
+                self.oblige(st, "safe", f"index:list@{line}", False)
+                return 0
             if isinstance(idx, int) and idx < 0:
                 self.oblige(st, "safe", f"index:list@{line}", V.cmp(">=", obj.n, -idx))
                 return obj.get(V.add(obj.n, idx))
@@ -1587,24 +1639,32 @@ class Engine:
     def call(self, st, fn, args, kwargs, node=None, fid=None):
         """returns [(state, value|_Raised)]"""
         line = getattr(node, "lineno", 0)
+        if isinstance(st, CurState):
+            st = self.cur_state
+        self.cur_state = st
         if isinstance(fn, Builtin):
             if fn.wants_state:
-                r = fn.fn(self, st, *args, **kwargs)
+                r = fn.fn(self, self.pst, *args, **kwargs)
             else:
                 r = fn.fn(*args, **kwargs)
             if isinstance(r, _Forked):
-                return r.results
+                return [((self.cur_state if isinstance(s_, CurState) else s_), v_) for s_, v_ in r.results]
             return [(st, r)]
         if isinstance(fn, BoundMethod):
             from .pymodel import call_method
 
-            r = call_method(self, st, fn, args, kwargs, line)
+            r = call_method(self, self.pst, fn, args, kwargs, line)
             if isinstance(r, _Forked):
-                return r.results
+                return [((self.cur_state if isinstance(s_, CurState) else s_), v_) for s_, v_ in r.results]
             return [(st, r)]
         if isinstance(fn, Closure):
             hook = self.call_hooks.get(fn.name) if fn.module is not None or fn.frame is None else None
             key = f"{fn.module.relname}:{fn.name}" if fn.module is not None else None
+            if key is None and fn.frame is not None and not isinstance(fn.node, ast.Lambda):
+                # nested def: contract registered as '<module>:<outer>.<name>'
+                nk = getattr(self, "nested_prefix", None)
+                if nk and f"{nk}.{fn.name}" in self.contracts:
+                    key = f"{nk}.{fn.name}"
             if key and key in self.contracts and not st.ghost:
                 from .modular import call_by_contract
 
@@ -1630,9 +1690,9 @@ class Engine:
                         h = hh
                         break
             if h:
-                r = h(self, st, fn, args, kwargs, line)
+                r = h(self, self.pst, fn, args, kwargs, line)
                 if isinstance(r, _Forked):
-                    return r.results
+                    return [((self.cur_state if isinstance(s_, CurState) else s_), v_) for s_, v_ in r.results]
                 return [(st, r)]
         raise Unsupported(f"call of {fn!r} at line {line}")
 
@@ -1675,6 +1735,8 @@ class Engine:
 
     def call_closure(self, st, fn, args, kwargs, line=0):
         """inline execution of a user function"""
+        if isinstance(st, CurState):
+            st = self.cur_state
         if isinstance(fn.node, ast.Lambda):
             newfid = self.new_frame(st, parent=fn.frame, module=fn.module)
             self.bind_params(st, fn, args, kwargs, newfid)
